@@ -561,7 +561,7 @@ theorem exec_loopfree (env : Env) (henv : EnvOk env) (code : List Instr) :
   | .ofStr q qe set, c, l, hl, hw => by
     simp only [WF] at hw
     have hq := runs_quant (env := env) (code := code) (c := c) (l := l) (pure := true) q (compile c qe) (toVm (eval env l qe))
-      (fun h => exec_loopfree env henv code qe c l (by simpa [loopFree] using hl) (hw h).1)
+      (fun h => exec_loopfree env henv code qe c l (by simpa [loopFree, h] using hl) (hw h).1)
     have hm : Runs env code [Instr.pushU] c l true [UNDEF] := Runs.push1 _ _ (fun _ _ _ _ _ => rfl)
     have hs := runs_strset (env := env) (code := code) (c := c) (l := l) (pure := true) set
     have hcode : compile c (.ofStr q qe set) =
@@ -579,7 +579,7 @@ theorem exec_loopfree (env : Env) (henv : EnvOk env) (code : List Instr) :
   | .ofRules q qe set, c, l, hl, hw => by
     simp only [WF] at hw
     have hq := runs_quant (env := env) (code := code) (c := c) (l := l) (pure := true) q (compile c qe) (toVm (eval env l qe))
-      (fun h => exec_loopfree env henv code qe c l (by simpa [loopFree] using hl) (hw h).1)
+      (fun h => exec_loopfree env henv code qe c l (by simpa [loopFree, h] using hl) (hw h).1)
     have hm : Runs env code [Instr.pushU] c l true [UNDEF] := Runs.push1 _ _ (fun _ _ _ _ _ => rfl)
     have hs := runs_ruleset (env := env) (code := code) (c := c) (l := l) (pure := true) set
     have hcode : compile c (.ofRules q qe set) =
@@ -599,7 +599,7 @@ theorem exec_loopfree (env : Env) (henv : EnvOk env) (code : List Instr) :
     simp only [loopFree, Bool.and_eq_true] at hl
     obtain ⟨hwq, hwlo, hwhi, htlo, hthi⟩ := hw
     have hq := runs_quant (env := env) (code := code) (c := c) (l := l) (pure := true) q (compile c qe) (toVm (eval env l qe))
-      (fun h => exec_loopfree env henv code qe c l hl.1.1 (hwq h).1)
+      (fun h => exec_loopfree env henv code qe c l (by simpa [h] using hl.1.1) (hwq h).1)
     have hm : Runs env code [Instr.pushU] c l true [UNDEF] := Runs.push1 _ _ (fun _ _ _ _ _ => rfl)
     have hs := runs_strset (env := env) (code := code) (c := c) (l := l) (pure := true) set
     have ihlo := exec_loopfree env henv code lo c l hl.1.2 hwlo
@@ -629,7 +629,7 @@ theorem exec_loopfree (env : Env) (henv : EnvOk env) (code : List Instr) :
     simp only [loopFree, Bool.and_eq_true] at hl
     obtain ⟨hwq, hwp, htp⟩ := hw
     have hq := runs_quant (env := env) (code := code) (c := c) (l := l) (pure := true) q (compile c qe) (toVm (eval env l qe))
-      (fun h => exec_loopfree env henv code qe c l hl.1 (hwq h).1)
+      (fun h => exec_loopfree env henv code qe c l (by simpa [h] using hl.1) (hwq h).1)
     have hm : Runs env code [Instr.pushU] c l true [UNDEF] := Runs.push1 _ _ (fun _ _ _ _ _ => rfl)
     have hs := runs_strset (env := env) (code := code) (c := c) (l := l) (pure := true) set
     have ihp := exec_loopfree env henv code pos c l hl.2 hwp
